@@ -427,6 +427,48 @@ def gram4_source(block, seq, syntax):
         '%%(%s)[%d' % (t, i) for i, t in enumerate(seq)) + '%%(%s)]q' % name
 
 
+# expression texts (no double quote inside): parser-level errors, errors that
+# only a later compiler pass reports, a NUL byte, statements, and valid ones
+EXPR_TEXTS = ['1 +', '(', ')', '(yield)', 'f(a=1, a=2)',
+              '(x := 1 for x in y)', 'await x', 'f(__debug__=1)', 'x\x00',
+              'lambda: (yield)', 'return 1', 'x = 1', 'import os',
+              'None = 1', 'f(**a, *b)', 'a if b', '1 2', 'x.', '[1,', 'not',
+              '0x', '1__0', 'a ? b', '$', 'x y', '{1:}',
+              'f(a for a in b, 1)', 'continue', 'del x', '*x', 'print x',
+              'yield', 'x := 1', "'", '\\', 'x for x in y', 'a, *b = c',
+              '[*a for a in b]', 'f(a)(', "'%s' %", 'not not', 'a b c',
+              'x + 1', 'f(a, b=1)', '(x, y)', "'a' 'b'", '[i for i in x]',
+              'x if y else z', 'lambda a: a', ' x ']
+EXPR_TAGS = [
+    ('HTML', '<dtml-var "%s">', 0), ('HTML', 'a\n<dtml-if "%s">a</dtml-if>', 0),
+    ('HTML', '<dtml-if x>a<dtml-elif "%s">b</dtml-if>', 0),
+    ('HTML', '<dtml-unless "%s">a</dtml-unless>', 0),
+    ('HTML', '<dtml-in "%s">a</dtml-in>', 0),
+    ('HTML', '<dtml-with "%s">a</dtml-with>', 0),
+    ('HTML', '<dtml-call "%s">', 0), ('HTML', '<dtml-return "%s">', 0),
+    ('HTML', '<dtml-raise "%s">a</dtml-raise>', 0),
+    ('HTML', '<dtml-let x="%s">a</dtml-let>', 0),
+    ('HTML', '<!--#var "%s"-->', 0), ('HTML', '\n<!--#if "%s"-->a<!--#/if-->', 0),
+    ('String', '%%(var "%s")s', 0), ('String', '%%(if "%s")[a%%(if)]', 0),
+    ('String', '%%(call "%s")!', 0),
+    # explicit expr=: a SyntaxError may surface as such
+    ('HTML', '<dtml-var expr="%s">', 1),
+    ('HTML', '<dtml-in x sort_expr="%s">a</dtml-in>', 1),
+    ('HTML', '<dtml-in x reverse_expr="%s">a</dtml-in>', 1),
+    ('HTML', '<dtml-tree x branches_expr="%s">a</dtml-tree>', 1),
+    ('String', '%%(var expr="%s")s', 1)]
+
+
+def python_rejects(text):
+    for t in (text, text.strip()):
+        try:
+            compile(t, '<expr>', 'eval')
+            return False
+        except (SyntaxError, ValueError):
+            pass
+    return True
+
+
 def cook(cls, src):
     """-> ('ok', None) | ('exc', exception)"""
     import signal
@@ -542,6 +584,7 @@ PUMP_OPENERS = {
 
 
 def cases(tier):
+    yield {'fam': 'exprs'}
     for cls, toks in (('HTML', HTML_TOK), ('String', EPFS_TOK)):
         for a in range(len(toks)):
             for b in range(len(toks)):
@@ -723,6 +766,24 @@ def run(case):
                             block or 'top'),
                         {'source': src, 'outcome': o},
                         {'fam': 'one', 'cls': cls, 'src': src})
+    elif fam == 'exprs':
+        import TreeDisplay  # noqa: F401  registers the tree tag
+        for text in EXPR_TEXTS:
+            bad = python_rejects(text)
+            for cls, tmpl, explicit in EXPR_TAGS:
+                src = tmpl % text
+                o = judge(res, cls, src, 'exprs')
+                note(o, src)
+                if bad and o not in ('rejected', 'syntaxerror'):
+                    res.violate('reject-invalid',
+                                'accepted-invalid:expression',
+                                {'source': src, 'outcome': o},
+                                {'fam': 'one', 'cls': cls, 'src': src})
+                if not bad and o in ('rejected', 'syntaxerror') and \
+                        'tree' not in src:
+                    res.violate('accept-valid', 'rejected-valid:expression',
+                                {'source': src, 'outcome': o},
+                                {'fam': 'one', 'cls': cls, 'src': src})
     else:
         for what, cls, src in BAD:
             o = judge(res, cls, src, 'gram')
